@@ -12,7 +12,10 @@
    adds a few > 64 KiB cases (IPv6 jumbograms, UDP length 0) and layers obtained by decoding fixtures and
    mutations (chosen uniformly over ~76 layer types), writes everything with FixLengths + ComputeChecksums through
    gopacket.SerializeLayers, decodes the bytes again and writes the decoded layers once more: events ser / dec /
-   ser2 with the header bytes each core layer really produced.
+   ser2 with the header bytes each core layer really produced.  Two of three cases reuse ONE buffer for all their
+   serializations (plus explicit sequences: stack with a stand-alone hop-by-hop layer, then IPv6-with-own-hop-by-hop
+   stacks and jumbograms); TLC also enumerates stacks at every 16-bit length limit (largest that fits / first that
+   does not: UDP and TCP over IPv4 and IPv6 with and without hop-by-hop, the UDP/IPv6 jumbo window 65527..65536).
 3. TLC validates the trace against Codec.tla + Wire.tla: Dec(Ser(x)) = x (types, keys, lists in order, payload,
    no error, not truncated), Ser(Dec(Ser(x))) = Ser(x), the layout laws on the real header bytes and, in stacks,
    that every header names the layer that follows.  Verdicts come only from step 3.
